@@ -10,6 +10,7 @@ pid, k, wt = sys.argv[1], sys.argv[2], sys.argv[3]
 extra = sys.argv[4:]
 src = f"{wt}/MUTANT/{k}"
 env = dict(os.environ, CARGO_NET_OFFLINE="true")
+wt_prefix = os.environ.get("SEEDED_PREFIX", "")
 def sh(cmd, cwd):
     r = subprocess.run(cmd, shell=True, cwd=cwd, capture_output=True, text=True, env=env)
     return r.returncode, (r.stdout + r.stderr)
@@ -41,7 +42,7 @@ try:
     for cid in [pid] + extra:
         for tier in ["quick", "thorough"]:
             t = time.time()
-            r = subprocess.run(['/verif/check', cid, tier], capture_output=True, text=True)
+            r = subprocess.run(['/verif/check', cid, tier], capture_output=True, text=True, env=dict(os.environ, VERIF_NO_FUZZ='1') if os.environ.get('SEEDED_NO_FUZZ') else None)
             sigs = [l.strip() for l in r.stdout.splitlines() if 'signature=' in l]
             verdict = {0:'missed',1:'caught'}.get(r.returncode, f'broken(exit {r.returncode})')
             results[f"{cid} {tier}"] = {"verdict": verdict, "seconds": round(time.time()-t), "signatures": sigs[:3]}
@@ -50,7 +51,7 @@ try:
             if r.returncode == 1: break
 finally:
     subprocess.run(['git','-C','/repo','checkout','--','.'])
-dst = f"/verif/seeded/{pid}-{k}"
+dst = f"/verif/seeded/{pid}-{wt_prefix}{k}"
 os.makedirs(dst, exist_ok=True)
 for f in ["patch.diff","demo.rs"]: shutil.copy(f"{src}/{f}", dst)
 meta["confirmed_by_me"] = {"suite_passes_with_mutant": suite_ok, "demo_fails_with_mutant": demo_fails, "demo_passes_without": demo_passes,
